@@ -148,11 +148,15 @@ class World:
         name = OPS[op]
         ev = {"op": name}
         try:
-            if name == "fc_full":
-                self.last_fc = self.hand_in("force_constants(full)", np.array(self.model(), dtype="double", order="C"))
-                ph.force_constants = self.last_fc
-            elif name == "fc_compact":
-                self.last_fc = self.hand_in("force_constants(compact)", np.array(self.model()[self.p2s], dtype="double", order="C"))
+            if name in ("fc_full", "fc_compact"):
+                a_ = np.array(self.model() if name == "fc_full" else self.model()[self.p2s], dtype="double", order="C")
+                if self.rng.integers(3) == 0:
+                    # a C-contiguous window of a larger buffer the caller owns (a slot of a stack of constants): NOT an array that owns its
+                    # data, so the documented copy avoidance does not apply - the object must work on its own copy
+                    stack_ = np.zeros((2,) + a_.shape)
+                    stack_[1] = a_
+                    a_ = stack_[1]
+                self.last_fc = self.hand_in("force_constants(%s)" % name[3:], a_)
                 ph.force_constants = self.last_fc
             elif name == "fc_same_object":
                 # the caller updates its own array in place and assigns the SAME object again (documented: no copy is made, so this is how
@@ -373,8 +377,9 @@ def run_case(c):
                 if zlib.crc32(np.ascontiguousarray(arr).tobytes()) != crc:
                     later = names
                     by = w.modified_by.get(id(arr))
-                    bad("caller_array_modified", "array handed in as %s was modified by operation '%s' in history %s" % (label, by, names), handed_in=label, ops=names,
-                        fc_copy_avoidance=bool(label.startswith("force_constants")), modified_by=by)
+                    bad("caller_array_modified", "array handed in as %s (%s) was modified by operation '%s' in history %s" % (
+                        label, "owning its data" if arr.flags.owndata else "a view of a larger buffer of the caller", by, names), handed_in=label, ops=names,
+                        fc_copy_avoidance=bool(label.startswith("force_constants")), modified_by=by, owns_data=bool(arr.flags.owndata))
             for label, by in w.handed_out_rewritten[:2]:
                 bad("handed_out_rewritten", "%s was overwritten by the replacing operation '%s' (history %s): new force constants must get new storage" % (label, by, names),
                     handed_out="force_constants", modified_by=by, ops=names)
@@ -408,7 +413,7 @@ def run_case(c):
         n_probe += 1
         if not np.array_equal(A, keep):
             bad("caller_array_modified", "force constants handed in (%s) were rewritten by symmetrize_force_constants()" % layout, handed_in="force_constants(%s)" % layout,
-                fc_copy_avoidance=True, probe="P1", modified_by="symmetrize")
+                fc_copy_avoidance=True, probe="P1", modified_by="symmetrize", owns_data=True)
         A2 = np.array(w.model() if layout == "full" else w.model()[w.p2s], dtype="double", order="C")
         keep2 = A2.copy()
         ph.force_constants = A2
@@ -416,7 +421,7 @@ def run_case(c):
         n_probe += 1
         if not np.array_equal(A2, keep2):
             bad("caller_array_modified", "force constants handed in (%s) were rewritten by set_force_constants_zero_with_radius()" % layout,
-                handed_in="force_constants(%s)" % layout, fc_copy_avoidance=True, probe="P1", modified_by="cutoff")
+                handed_in="force_constants(%s)" % layout, fc_copy_avoidance=True, probe="P1", modified_by="cutoff", owns_data=True)
     # P2: handed-out force constants alias internal state
     ph.force_constants = np.array(w.model(), dtype="double", order="C")
     a0 = answers()
